@@ -109,7 +109,7 @@ pub fn c19(tier: &str) -> i32 {
     let nontrivial = rows.iter().filter(|r| !(r.k_send && r.k_sync)).count();
     let write_replay = |idx: usize, msg: &str| -> String {
         let rp = driver::Replay2 { property: "C19".into(), oracle: "E3".into(), msg: msg.into(), engine: "C19types".into(), tree_rev: driver::tree_rev(), case: json!(idx) };
-        let dir = format!("{}/work/replays", driver::VERIF);
+        let dir = format!("{}/work/replays", driver::verif_dir());
         let _ = std::fs::create_dir_all(&dir);
         let path = format!("{}/C19types-row{}.json", dir, idx);
         std::fs::write(&path, serde_json::to_string_pretty(&rp).unwrap()).unwrap();
